@@ -470,7 +470,7 @@ def merge_projections(arr):
         return arr
     if len(arr) == 1 or not has_none(arr[0]):
         return arr[0]
-    sparse_fa = np.copy(arr[0])
+    sparse_fa = list(arr[0])    # a plain list: arguments may themselves be arrays, and has_none() must still see the open holes
     # each later argument list fills the holes that are still open, left to right;
     # a None in it leaves that hole open for a later call
     for fa in arr[1:]:
